@@ -326,10 +326,11 @@ def run(chk, R, tier, seed):
     chk.require("worlds")
     # the predefined catalogue plus three currencies (the quantum of money
     # comes from the unit, not from the type)
-    w = predefined_world({"EUR": 2, "JPY": 0, "BHD": 3})
-    syms = list(SI.UNITS) + ["EUR", "JPY", "BHD"]
-    prelude18 = [{"e": M(["g", "quantity.money:Money"], "register_currency",
-                         ["s", c])} for c in ("EUR", "JPY", "BHD")]
+    w = predefined_world({"EUR": 2, "JPY": 0, "BHD": 3, "XNK": F(1, 20)})
+    syms = list(SI.UNITS) + ["EUR", "JPY", "BHD", "XNK"]
+    from ..cases import currency_steps
+    prelude18 = currency_steps({"EUR": 2, "JPY": 0, "BHD": 3,
+                                "XNK": F(1, 20)})
     wrap = lambda jd: (lambda obs, rec, case: jd(obs))      # noqa: E731
     cases = []
     per = 20 if tier == "quick" else 120
